@@ -203,8 +203,9 @@ def config_table(ctx):
     return res
 
 
-def _eval_gen(P, tele, inf, ft):
-    """symbolic evaluation of generate_rays (+ origins inlined)."""
+def _eval_gen(P, tele, inf, ft, behind=False):
+    """symbolic evaluation of generate_rays (+ origins inlined); `behind`:
+    the aim point lies behind the launch point (virtual entrance pupil)."""
     c = _rg(P)
     gen = c.methods['generate_rays']
     sym = Sym()
@@ -224,6 +225,8 @@ def _eval_gen(P, tele, inf, ft):
             return True
         if 'uses_polarization' in s:
             return False
+        if s.replace(' ', '') in ('z1<z0', 'z0>z1'):
+            return behind
         return None
 
     def inline(call, ev):
@@ -279,9 +282,14 @@ def aim(ctx):
              (False, False, 'object_height', 'finite object, height field'),
              (False, False, 'angle', 'finite object, angular field'),
              (True, False, 'object_height', 'telecentric object space')]
-    for tele, inf, ft, name in cases:
+    cases = [c_ + (False,) for c_ in cases] + \
+        [(False, True, 'angle', 'infinite object, angular field, pupil '
+          'behind the launch plane', True),
+         (False, False, 'object_height', 'finite object, height field, pupil '
+          'behind the object', True)]
+    for tele, inf, ft, name, behind in cases:
         try:
-            ev, built, sym = _eval_gen(P, tele, inf, ft)
+            ev, built, sym = _eval_gen(P, tele, inf, ft, behind)
         except Inconclusive as e:
             raise AnalysisError(f'AIM {name}: outside fragment: {e}')
         if 'args' not in built or len(built['args']) < 8:
@@ -296,10 +304,14 @@ def aim(ctx):
         par = sym.is_zero(L * dy - M * dx) and sym.is_zero(M * dz - N * dy) \
             and sym.is_zero(L * dz - N * dx)
         unit = sym.eq(L * L + M * M + N * N, ONE)
-        fwd = sym.eq(N * sym.sqrt(dx * dx + dy * dy + dz * dz), dz)
+        # the ray lies on the line through the aim point and travels towards
+        # +z: N |d| = |dz|, i.e. +dz when the aim point is ahead of the launch
+        # point and -dz when it lies behind it (virtual pupil)
+        fwd = sym.eq(N * sym.sqrt(dx * dx + dy * dy + dz * dz),
+                     -dz if behind else dz)
         for nm2, ok in (('direction parallel to aim - origin', par),
                         ('unit length', unit),
-                        ('same orientation as aim - origin', fwd)):
+                        ('travels towards +z along the line to the aim point', fwd)):
             if ok:
                 res.ok(f'{name}: {nm2}')
             else:
